@@ -56,7 +56,7 @@ def tier_rank(t):
 
 
 def write_replay(prop, r: UnitResult, ob, native):
-    d = os.path.join(VERIF, "work", "replay")
+    d = os.environ.get("VP_REPLAY_DIR", os.path.join(VERIF, "work", "replay"))
     os.makedirs(d, exist_ok=True)
     name = re.sub(r"[^A-Za-z0-9_.-]", "_", "%s-%s-%s" % (prop, r.unit.name, ob.pid))
     path = os.path.join(d, name + ".json")
@@ -226,8 +226,9 @@ def check(prop, tier, props_meta):
         cov["evaluations"] = max(1, sum(e["obligations"] for e in bounded_ev))
         cov["distinct_nontrivial"] = max(2, sum(e["obligations"] for e in bounded_ev))
         cov["rule"] = "bounded stand-ins only: each CBMC obligation of a bounded unit counted once"
-    os.makedirs(os.path.join(VERIF, "evidence"), exist_ok=True)
-    with open(os.path.join(VERIF, "evidence", prop + ".json"), "w") as fh:
+    evdir = os.environ.get("VP_EVIDENCE_DIR", os.path.join(VERIF, "evidence"))   # seed runs write elsewhere
+    os.makedirs(evdir, exist_ok=True)
+    with open(os.path.join(evdir, prop + ".json"), "w") as fh:
         json.dump(ev, fh, indent=1)
     for l in known_lines:
         print(l)
